@@ -345,7 +345,7 @@ def process_level(ctx, seq):
         if t - tb < 1.8:
             break
     t, e, o = best
-    return (("@" + enc + " " if enc else "") + "+".join(seq), round(t - tb, 3), e, eb, o.startswith(ob) if o is not None else False)
+    return ("+".join((["@" + enc] if enc else []) + seq), round(t - tb, 3), e, eb, o.startswith(ob) if o is not None else False)
 
 
 def process_viols(res):
